@@ -33,6 +33,33 @@ observe.register_formats()
 def cases(draw):
     recipe = draw(R.recipes(R.RCfg(depth=2)))
     mode = draw(st.sampled_from(["same", "mutant", "mutant", "mutant", "parsed"]))
+    if draw(st.integers(0, 5)) == 0:
+        # a class that INHERITS keywords vs the flat class that lacks one of them
+        gen = R._Gen()
+        cfg_i = R.RCfg(depth=1, inheritance=False)
+        parent = draw(R._node(cfg_i, 1, gen, kinds=["Object"]))
+        child = draw(R._node(cfg_i, 1, gen, kinds=["Object"]))
+        if parent.get("kind") == "Object" and child.get("kind") == "Object":
+            parent.setdefault("sub", {}).setdefault("additionalProperties", draw(st.sampled_from([False, False, True])))
+            if draw(st.booleans()):
+                parent.setdefault("kw", {}).setdefault("minProperties", draw(st.integers(1, 2)))
+            everything = R.index(copy.deepcopy([parent, child]))
+            child["base"] = parent
+            names = {p["name"] for p in parent.get("props", [])}
+            srcs = {p["source"] if p.get("source") is not None else p["name"] for p in parent.get("props", [])}
+            child["props"] = [p for p in child.get("props", []) if p["name"] not in names and
+                              (p["source"] if p.get("source") is not None else p["name"]) not in srcs]
+            child = R.repair_refs(copy.deepcopy({k: child[k] for k in ("id", "kind", "name", "kw", "base", "sub", "props")
+                                                 if k in child}), everything)
+            kw, sub, props = copy.deepcopy(R.flat_class(child, R.index(child)))
+            inherited = sorted((set(parent.get("kw", {})) - set(child.get("kw", {})))
+                               | {"sub:" + k for k in set(parent.get("sub", {})) - set(child.get("sub", {}))})
+            drop = draw(st.sampled_from(inherited + [None])) if inherited else None
+            flat = {"id": 7000, "kind": "Object", "name": "Flat", "kw": {k: v for k, v in kw.items() if k != drop},
+                    "sub": {k: v for k, v in sub.items() if "sub:" + k != drop}, "props": props}
+            flat = R.repair_refs(flat, R.index(child))
+            values = draw(values_for(R.to_schema(child), 5, 8))
+            return {"mode": "inherit", "a": child, "b": flat, "dropped": drop, "values": values}
     if recipe.get("props") and recipe["kind"] in ("Element", "Object") and draw(st.integers(0, 2)) == 0:
         # b re-uses a's element OBJECTS under property wrappers that differ in one attribute
         values = draw(values_for(R.to_schema(recipe), 4, 6))
@@ -118,7 +145,7 @@ def build_pair(case):
         return a, build_shared(case, a)
     if case["mode"] == "same":
         b = R.build(case["a"])
-    elif case["mode"] == "mutant":
+    elif case["mode"] in ("mutant", "inherit"):
         b = R.build(case["b"])
     else:
         parsed = observe.safe_parse(R.to_schema(case["a"]))
@@ -144,6 +171,8 @@ def predicate(case, stats):
     if case["mode"] == "shared" and (ab or ba):
         fails.append({"sub": "eq", "kind": "equal-although-a-property-attribute-differs", "change": case["change"],
                       "property": case["a"]["props"][case["prop"]]["name"]})
+    if case["mode"] == "inherit" and case.get("dropped") is None and not (ab and ba):
+        fails.append({"sub": "eq", "kind": "subclass-unequal-to-its-flat-equivalent"})
     if case["mode"] == "same" and not (ab and ba):
         fails.append({"sub": "eq", "kind": "independent-builds-unequal"})
     equal = bool(ab) and bool(ba)
